@@ -129,7 +129,10 @@ def straddle_phase(ctx, orc, fails, dist):
     (and its decode time sampled) in the last valid second X, the purge runs in second X+1 and discards the record of the
     earlier decode, and only then does the request reach replay_insert().  The schedule is forced on the unchanged daemon code
     by holding the worker at the entrance of replay_insert() (harness/replay_gate.c, -Wl,--wrap) while the clock is stepped
-    and the timer thread fast-forwarded.  No credential may be successfully decoded twice."""
+    and the timer thread fast-forwarded.  No credential may be successfully decoded twice.  Every reply is also compared with
+    the model: the history is replayed on the oracle with the two clock readings of each decode (dec_process2: received at t1,
+    replay step at t2) and the purge in between; for the held request t1 = X, t2 = X+late, and the expected reply is
+    EMUNGE_CRED_EXPIRED with the soft-error shape (the decoded fields stay).  Returns the model/daemon mismatches."""
     import threading
     gate_c = os.path.join(vlib.HARNESS, "replay_gate.c")
     exe, err = rig.build_daemon(ctx, name="munged-vtg", san="address", extra_src=rig.vtimer_src() + [gate_c],
@@ -139,12 +142,22 @@ def straddle_phase(ctx, orc, fails, dist):
         return
     T = 1500000000
     rng = ctx.rng
+    mism = []
+
+    def cmp_model(what, d, m, log, cred, t1, t2):
+        if d is None:
+            diff = "daemon gave no reply; model says error %d %r" % (m["error_num"], m["error_str"])
+        else:
+            diff = next(("field %s: daemon %r, model %r" % (f, d[f] if f != "data" else d[f][:40], m[f] if f != "data" else m[f][:40])
+                         for f in credcorr.FIELDS if d[f] != m[f]), None)
+        if diff:
+            mism.append({"op": "straddle " + what, "cred_hex": cred[:3000].hex(), "t1": t1, "t2": t2, "diff": diff, "history": list(log)})
     for max_ttl, nthreads in (((5, 2), (60, 4), (3600, 2)) if ctx.thorough else ((5, 2), (60, 4))):
         cr = credcorr.CredRig(ctx, exe, orc, tag="c05s%d" % max_ttl, max_ttl=max_ttl, nthreads=nthreads, clock=T,
                               extra=["--group-update-time=3600"])
         if not cr.ok:
             ctx.violation("daemon does not start (straddle phase)", {"obligation": "start"}, found_input=False)
-            return
+            return mism
         gate = cr.d.clockfile + ".gate"
         held = gate + ".held"
 
@@ -164,8 +177,10 @@ def straddle_phase(ctx, orc, fails, dist):
                 cr.set_clock(X)
                 d1, _ = rig.decode(cr.d.sock, cred, uid=5, gid=6)
                 log.append("decode received@X -> %s" % (d1 and d1["error_num"]))
+                cmp_model("first decode", d1, cr.o.dec(cred, 0, 5, 6, X, now2=X), log, cred, X, X)
                 d2, _ = rig.decode(cr.d.sock, cred, uid=5, gid=6)
                 log.append("decode received@X -> %s" % (d2 and d2["error_num"]))
+                cmp_model("second decode", d2, cr.o.dec(cred, 0, 5, 6, X, now2=X), log, cred, X, X)
                 # third request: received at X, held in front of replay_insert()
                 if os.path.exists(held):
                     os.unlink(held)
@@ -184,8 +199,19 @@ def straddle_phase(ctx, orc, fails, dist):
                 th.join(15)
                 d3 = res.get("r")
                 log.append("held request answered -> %s" % (d3 and d3["error_num"]))
+                if was_held:
+                    # the model's history: purge at X+late, then the held request with (t1, t2) = (X, X+late)
+                    cr.o.purge(X + late)
+                    m3 = cr.o.dec(cred, 0, 5, 6, X, now2=X + late)
+                    cmp_model("held request (t1 = X, t2 = X+%d)" % late, d3, m3, log, cred, X, X + late)
+                    if d3 is not None and d3["error_num"] == 15 and (d3["data_len"] != len(b"straddle %d" % ttl) or d3["cred_uid"] != 11):
+                        fails.append({"why": "the held request was answered 'expired' but without the decoded fields (a soft error keeps "
+                                             "them): data_len %d cred_uid %d; %s" % (d3["data_len"], d3["cred_uid"], "; ".join(log)),
+                                      "cred_hex": cred.hex(), "history": log, "max_ttl": max_ttl, "kind": "straddle-shape"})
                 d4, _ = rig.decode(cr.d.sock, cred, uid=5, gid=6)
                 log.append("decode received@X+%d -> %s" % (late, d4 and d4["error_num"]))
+                if was_held:
+                    cmp_model("decode after the straddle", d4, cr.o.dec(cred, 0, 5, 6, X + late, now2=X + late), log, cred, X + late, X + late)
                 cr.set_clock(T)
                 ctx.count(("straddle", max_ttl, ttl, late))
                 dist["straddle"] = dist.get("straddle", 0) + 1
@@ -194,7 +220,9 @@ def straddle_phase(ctx, orc, fails, dist):
                     ctx.notes.append("straddle phase: the request was not held (gate not reached): %s" % log)
                 if succ > 1:
                     fails.append({"why": "a credential (ttl %d, decoder --max-ttl %d, last valid second X) was successfully decoded %d times on one "
-                                         "daemon by first-attempt requests: %s" % (ttl, max_ttl, succ, "; ".join(log)),
+                                         "daemon by first-attempt requests: %s  [the history of C05_stale_time_refuted / C07_stale_time_refuted: "
+                                         "a rule without a fresh clock reading after replay_insert violates C05_first_attempts_at_most_once / "
+                                         "C07_second_presentation_never_accepted]" % (ttl, max_ttl, succ, "; ".join(log)),
                                   "cred_hex": cred.hex(), "history": log, "max_ttl": max_ttl, "kind": "straddle"})
                 elif d1 is None or d1["error_num"] != 0 or d2 is None or d2["error_num"] != 17:
                     fails.append({"why": "in-time decodes of a fresh credential answered %s then %s (expected 0 then 17): %s"
@@ -205,6 +233,7 @@ def straddle_phase(ctx, orc, fails, dist):
             rc, rep = cr.stop()
         if rep.strip():
             ctx.violation("sanitizer report from the daemon during the C05 straddle phase", {"report": rep[:3000]}, found_input=False)
+    return mism
 
 
 def live_phase(ctx):
@@ -310,7 +339,7 @@ def live_phase(ctx):
             ctx.violation("model and daemon disagree in the C05 live phase on %d cases (first: %s)" % (len(mism), mism[0]["diff"]),
                           {"obligation": "correspondence CredModel ~ munged (C05 live)", "first": mism[0]}, found_input=False)
     pm = purge_phase(ctx, orc, fails, dist)
-    straddle_phase(ctx, orc, fails, dist)
+    sm = straddle_phase(ctx, orc, fails, dist) or []
     from props import c07 as _c07
     qf = []
     _c07.queued_across_expiry(ctx, orc, qf, dist)
@@ -320,6 +349,10 @@ def live_phase(ctx):
         ctx.violation("model and daemon disagree in the C05 purge histories on %d cases (first: %s; history %s)"
                       % (len(pm), pm[0]["diff"], " ".join(pm[0]["history"])),
                       {"obligation": "correspondence CredModel+r_purge ~ munged (C05 purge histories)", "first": pm[0]}, found_input=False)
+    if sm and not fails:
+        ctx.violation("model and daemon disagree in the C05 straddle histories on %d cases (first: %s; history %s)"
+                      % (len(sm), sm[0]["diff"], "; ".join(sm[0]["history"])),
+                      {"obligation": "correspondence CredModel.dec_process2+r_purge ~ munged (C05 straddle)", "first": sm[0]}, found_input=False)
     ctx.cov.setdefault("input_distribution", {}).update({"live-" + k: v for k, v in dist.items()})
     seen = set()
     for f in fails:
@@ -327,4 +360,5 @@ def live_phase(ctx):
         if k in seen:
             continue
         seen.add(k)
-        ctx.violation(f["why"], f, found_input=True)
+        ctx.violation(f["why"] + ("" if getattr(ctx, "proof_ok", True) else "  [and the proof obligation no longer checks: %s]"
+                                  % getattr(ctx, "broken_obligation", "?")), f, found_input=True)
